@@ -21,4 +21,5 @@ u32 envf_first_read_seq(u8 *f);
 u32 envf_closed(u8 *f);
 void envf_seek(u8 *f, u64 pos);
 u64 envf_tell(u8 *f);
+void envf_release(u8 *f);
 #endif
